@@ -372,6 +372,11 @@ func checkC07(w *World, r *Report) {
 	})
 	readerEnvRule(w, r, "C07.reader-env")
 	tryShareRule(w, r, e, "C07.try-share")
+	// a lock that some path leaves held is waited for, from then on, by every operation on that object, and no
+	// wait for a mutex looks at a context
+	r.rule("C07.release", "every mutex acquired in lib/concurrent and env is released on every return, by an unlock on the path or by a deferred unlock registered before that return (a lock left held makes every later deref, swap! or lookup wait for ever, whatever its context says)")
+	nrel := pairRule(w, r, e, "C07.release", append(append([]*ssa.Function{}, w.pkgFuncs("lib/concurrent")...), w.pkgFuncs("env")...))
+	r.floor("C07.release", "lock acquisitions and releases in lib/concurrent and env", nrel, 8)
 	r.rule("C07.lock-scope", "no mutex of the library is held across a call that can reach the evaluator, a blocking select, a channel receive or send, or time.Sleep: a second evaluation waiting for that lock cannot be cancelled")
 	nls := 0
 	for _, fn := range w.Funcs {
